@@ -219,5 +219,6 @@ def run(R):
     # a task that stays in the computation after an unwind (the executing one and those below it) with a stale flag is taken for
     # "blocked, dependencies already scheduled": its contexts are paused and resumed underneath the executing task's override
     common.unwind_flag_reset(R, ro, "C07.UNWIND-FLAG")
+    common.call_with_context_rule(R, "C07.DIRECTION")
     R.require_min("C07.DIRECTION", 3)
     R.require_min("C07.SAVE-RESTORE", 10)
